@@ -188,7 +188,8 @@ def _run_shard(args):
         lines.append(f"Eval vm_compute in ({e}).")
     path.write_text("\n".join(lines) + "\n")
     p = subprocess.run(
-        ["timeout", "1800", "coqc", "-Q", str(COQ / "theories"), "SV", "-w", "none", str(path)],
+        ["bash", "-c", "ulimit -s unlimited 2>/dev/null || ulimit -s 1000000; exec timeout 1800 coqc -Q %s SV -w none %s"
+         % (COQ / "theories", path)],
         capture_output=True, text=True, cwd=path.parent,
     )
     if p.returncode != 0:
